@@ -938,6 +938,17 @@ func (rc *RelationConstraint) match(ctx context.Context, s *search, pn blob.Ref,
 
 		var bm camtypes.BlobMeta
 		bm, err = s.blobMeta(ctx, relRef)
+		if errors.Is(err, os.ErrNotExist) {
+			// The related blob is not (yet) known to the index, e.g. a
+			// camliMember claim that arrived before its member. It cannot
+			// match anything; that is no reason to fail the whole query.
+			err = nil
+			anyBad = true
+			if rc.All != nil {
+				return false // fail fast
+			}
+			return true
+		}
 		if err != nil {
 			return false
 		}
